@@ -42,6 +42,8 @@ type coord struct {
 	cands []*Candidate
 	sums  []*Summary
 	infra []string // infrastructure trouble: exit 2, never a violation
+
+	histCrashes []*ReplayFile // process deaths that need the worker's earlier runs
 }
 
 type phase struct {
@@ -263,6 +265,15 @@ func (c *coord) runPhase(ph phase) {
 					// "concurrent map writes"): find the run that kills it
 					idx := c.findCrashingRun(ph, wid, from, deadline)
 					if idx < 0 {
+						// not alone: perhaps only after the runs before it
+						i, rf := c.crashAfterHistory(ph, wid, from)
+						if rf != nil {
+							c.mu.Lock()
+							c.histCrashes = append(c.histCrashes, rf)
+							c.mu.Unlock()
+							from = i + 1
+							continue
+						}
 						c.addInfra(fmt.Sprintf("worker %d exited with code %d and the crash did not recur: %s", wid, code, lastLine(stderr.String())))
 						return
 					}
@@ -488,6 +499,73 @@ func (c *coord) runWorkerRange(race bool, wid, from, to int) []*Candidate {
 	return out
 }
 
+// crashPoint runs [from,to) of a worker in one process with progress markers
+// and reports the run during which the process died (-1: it did not die).
+func (c *coord) crashPoint(race bool, wid, from, to int) (int, string) {
+	ph := phase{race: race, extra: []string{"-progress"}}
+	cmd := c.workerCmd(ph, wid, from, to, time.Now().Add(10*time.Minute))
+	var stdout, stderr bytes.Buffer
+	cmd.Stdout, cmd.Stderr = &stdout, &stderr
+	err := cmd.Run()
+	code := 0
+	if ee, ok := err.(*exec.ExitError); ok {
+		code = ee.ExitCode()
+	}
+	if err == nil || code == exitFatalRun || code == exitHarnessBug {
+		return -1, ""
+	}
+	last := -1
+	for _, line := range strings.Split(stdout.String(), "\n") {
+		if strings.HasPrefix(line, "AT ") {
+			last, _ = strconv.Atoi(strings.TrimSpace(line[3:]))
+		}
+	}
+	return last, firstFatalLine(stderr.String())
+}
+
+// crashAfterHistory localises a worker death that single-run processes do not
+// show: the shortest suffix [j, i] of the worker's run sequence after which run
+// i kills the process.
+func (c *coord) crashAfterHistory(ph phase, wid, from int) (int, *ReplayFile) {
+	i, msg := c.crashPoint(ph.race, wid, from, ph.runs)
+	if i < 0 {
+		return -1, nil
+	}
+	lo := from
+	// tighten the start: largest j for which [j, i] still dies in run i
+	l, h := from, i
+	for l < h {
+		mid := (l + h + 1) / 2
+		if k, _ := c.crashPoint(ph.race, wid, mid, i+1); k == i {
+			l = mid
+		} else {
+			h = mid - 1
+		}
+	}
+	lo = l
+	k1, m1 := c.crashPoint(ph.race, wid, lo, i+1)
+	k2, _ := c.crashPoint(ph.race, wid, lo, i+1)
+	if k1 != i || k2 != i {
+		return i, nil
+	}
+	rf := &ReplayFile{Property: c.prop, Seed: c.seed, RunIdx: i, Race: ph.race}
+	rf.TapeKinds = simrt.KindNames
+	rf.Class, rf.Kind = "crash", m1
+	if m1 == "" {
+		rf.Kind = msg
+	}
+	rf.Detail = fmt.Sprintf("the process dies (%s) in run %d, but only after runs %d..%d of the same worker process: the failure depends on what the process handled before", rf.Kind, i, lo, i-1)
+	rf.WorkerRange = &WorkerRange{Wid: wid, From: lo, To: i + 1, Tier: c.tier}
+	cd := &Candidate{Prop: c.prop, Seed: c.seed, RunIdx: i, Wid: wid, Explore: true}
+	c.materialise(cd)
+	rf.World = cd.World
+	if rf.World == nil {
+		rf.World = &World{Prop: c.prop}
+	}
+	rf.Note = "replay re-executes the worker range in one fresh process and expects it to die in the last run"
+	return i, rf
+}
+
 func findRun(cands []*Candidate, idx int, v *Violation) *Candidate {
 	for _, cd := range cands {
 		if cd.RunIdx == idx && cd.Violation.Class == v.Class && cd.Violation.Kind == v.Kind {
@@ -578,6 +656,20 @@ func (c *coord) conclude() int {
 	exit := 0
 	reported := 0
 	var replayPaths []string
+	for k, rf := range c.histCrashes {
+		if k >= 2 {
+			break
+		}
+		path := filepath.Join(c.verif, "replays", fmt.Sprintf("%s-%d-%s.json", c.prop, c.seed, shortHash(rf)))
+		_ = os.MkdirAll(filepath.Dir(path), 0o755)
+		b, _ := json.MarshalIndent(rf, "", " ")
+		_ = os.WriteFile(path, b, 0o644)
+		fmt.Printf("jsim: crash on %s: %s\n", rf.Kind, rf.Detail)
+		fmt.Printf("VIOLATION property=%s replay=%s\n", c.prop, path)
+		replayPaths = append(replayPaths, path)
+		exit = 1
+		reported++
+	}
 	budgetEnd := time.Now().Add(6 * time.Minute)
 	for _, sig := range sigs {
 		g := groups[sig]
@@ -735,6 +827,12 @@ func candSize(cd *Candidate) int {
 func (c *coord) materialise(cd *Candidate) {
 	loadCorpus(c.corpus)
 	switch c.prop {
+	case "C09":
+		noiseBase = hashSeed(cd.Seed, 909, uint64(cd.Wid))
+		pj := cd.RunIdx / 8
+		pr := &rng{s: hashSeed(cd.Seed, 9, uint64(cd.Wid), uint64(pj), 77)}
+		proj := genProjectIndexed(pr, cd.Wid, pj, c.tier)
+		cd.World = genWorldC09(hashSeed(cd.Seed, 9, uint64(cd.Wid), uint64(cd.RunIdx)), &proj)
 	case "C10":
 		cd.World = genWorldC10(hashSeed(cd.Seed, 10, uint64(cd.Wid), uint64(cd.RunIdx)), cd.RunIdx%4 != 0)
 	case "C11":
@@ -1308,6 +1406,17 @@ func replayMain(args []string) {
 	if rf.WorkerRange != nil {
 		c.prop, c.seed, c.tier = rf.Property, rf.Seed, rf.WorkerRange.Tier
 		c.corpus = *corpusPath
+		if rf.Class == "crash" {
+			c.nworkers = 1
+			k, msg := c.crashPoint(rf.Race, rf.WorkerRange.Wid, rf.WorkerRange.From, rf.WorkerRange.To)
+			if k != rf.WorkerRange.To-1 {
+				fmt.Printf("jsim: NOT-REPRODUCED: runs %d..%d of worker %d no longer kill the process\n", rf.WorkerRange.From, rf.WorkerRange.To-1, rf.WorkerRange.Wid)
+				os.Exit(0)
+			}
+			fmt.Printf("jsim: REPRODUCED crash (%s) in run %d after runs %d.. of the same process\n", msg, k, rf.WorkerRange.From)
+			fmt.Printf("VIOLATION property=%s replay=%s\n", rf.Property, *file)
+			os.Exit(1)
+		}
 		hit := findRun(c.runWorkerRange(rf.Race, rf.WorkerRange.Wid, rf.WorkerRange.From, rf.WorkerRange.To), rf.WorkerRange.To-1, &want)
 		if hit == nil {
 			fmt.Printf("jsim: NOT-REPRODUCED: runs %d..%d of worker %d no longer end in %s/%s\n", rf.WorkerRange.From, rf.WorkerRange.To-1, rf.WorkerRange.Wid, rf.Class, rf.Kind)
